@@ -332,15 +332,40 @@ class Cli:
         """spec: {argv:[...], env:{...}, stdin_hex:str|None, files:{name: hex}, ent:{MODE,SEED,HEX,FAIL_AT,FAIL_FROM,CAP,DELAY,log:bool},
         timeout: seconds}. '@FILE:name@' in argv is replaced by the path of the materialised file.
         Returns {exit|signal|hang|timeout, stdout_hex, stdout, stderr, entropy:[...]}"""
+        files = spec.get("files") or {}
+        if len(files) == 1 and not self.wrapper and spec.get("fifo") is not False and not spec.get("strace"):
+            (name, hx), = files.items()
+            refs = sum(a.count("@FILE:%s@" % name) for a in spec["argv"] if isinstance(a, str))
+            pick = int(hashlib.sha256(b"file-delivery" + repr(spec.get("argv")).encode() + hx[:64].encode()).hexdigest()[:4], 16) % 12
+            if refs == 1 and 2 <= len(hx) // 2 <= (1 << 20) and (pick == 0 or spec.get("fifo")):
+                # The input file is a named pipe (what `cmd <(producer)` gives a tool), fed in two pieces with a pause. Only a
+                # SUCCESSFUL run is judged on it - its output must be the result for the bytes supplied; a tool may refuse or be
+                # unable to read a non-regular file (no property speaks about that), so any other outcome is re-run on a regular file.
+                obs = self._run_once(spec, fifo=True)
+                if obs.get("exit") == 0:
+                    obs["file_delivery"] = "named-pipe"
+                    return obs
+                obs = self._run_once(spec)
+                obs["file_delivery"] = "regular-file-after-named-pipe-run-did-not-succeed"
+                return obs
+        return self._run_once(spec)
+
+    def _run_once(self, spec, fifo=False):
         self.n += 1
         d = os.path.join(self.scratch, "c%d" % self.n)
         os.makedirs(d, exist_ok=True)
+        fifo_done = threading.Event()
         try:
             paths = {}
+            fifo_feeds = []
             for name, hx in (spec.get("files") or {}).items():
                 pth = os.path.join(d, name)
-                with open(pth, "wb") as f:
-                    f.write(bytes.fromhex(hx))
+                if fifo:
+                    os.mkfifo(pth)
+                    fifo_feeds.append((pth, bytes.fromhex(hx)))
+                else:
+                    with open(pth, "wb") as f:
+                        f.write(bytes.fromhex(hx))
                 paths[name] = pth
             argv = []
             for a in spec["argv"]:
@@ -443,6 +468,38 @@ class Cli:
                         pass
             feeder = threading.Thread(target=_feed, daemon=True)
             feeder.start()
+
+            def _feed_fifo(pth, data):
+                import errno
+                import fcntl
+                fd = None
+                while fd is None and not fifo_done.is_set():
+                    try:
+                        fd = os.open(pth, os.O_WRONLY | os.O_NONBLOCK)
+                    except OSError as e:
+                        if e.errno not in (errno.ENXIO, errno.ENOENT):
+                            return
+                        time.sleep(0.002)
+                if fd is None:
+                    return
+                try:
+                    fcntl.fcntl(fd, fcntl.F_SETFL, fcntl.fcntl(fd, fcntl.F_GETFL) & ~os.O_NONBLOCK)
+                    view = memoryview(data)
+                    cut = len(view) // 2
+                    for piece in (view[:cut], view[cut:]):
+                        while len(piece):
+                            n = os.write(fd, piece[:1 << 16])
+                            piece = piece[n:]
+                        time.sleep(0.004)
+                except OSError:
+                    pass
+                finally:
+                    try:
+                        os.close(fd)
+                    except OSError:
+                        pass
+            for pth, data in fifo_feeds:
+                threading.Thread(target=_feed_fifo, args=(pth, data), daemon=True).start()
             obs = {}
             # Termination is not decided on wall-clock: a process that is alive but has made no CPU progress for
             # STALL seconds is blocked ("hang"); one that is still computing when the generous watchdog fires is
@@ -508,6 +565,7 @@ class Cli:
                 obs["syscalls"] = parse_strace(strace_out)
             return obs
         finally:
+            fifo_done.set()
             shutil.rmtree(d, ignore_errors=True)
 
 
